@@ -53,10 +53,46 @@ def positions():
     def setop(Q, v): return str(Q.from_(t).select(t.a).where(t.a == v).union(Q.from_(Table("u")).select(Table("u").a)))
     def delete(Q, v): return str(Q.from_(t).delete().where(t.a == v))
     def arith(Q, v): return str(Q.from_(t).select(t.a).where(fn.Concat(t.a, v) == "k"))
+    # JSON operators: a dict / list operand becomes a JSON term (its own serialiser), a string a plain constant
+    def json_contains(Q, v): return str(Q.from_(t).select(t.a).where(t.j.contains(v)))
+    def json_contained_by(Q, v): return str(Q.from_(t).select(t.a).where(t.j.contained_by(v)))
+    def json_has_key(Q, v): return str(Q.from_(t).select(t.a).where(t.j.has_key(v)))
+    def json_path(Q, v): return str(Q.from_(t).select(t.j.get_path_text_value(v)))
+    def json_term(Q, v):
+        from pypika_tortoise.terms import JSON
+        return str(Q.from_(t).select(t.a).where(t.j == (JSON(v) if isinstance(v, (dict, list)) else v)))
 
     return {f.__name__.rstrip("_"): f for f in (sel, where, where_ne, isin, insert, insert_cols, set_, set_where, func,
                                                   case_then, case_else, case_when, default, upsert, between, having,
-                                                  like, join_on, subq, setop, delete, arith)}
+                                                  like, join_on, subq, setop, delete, arith,
+                                                  json_contains, json_contained_by, json_has_key, json_path, json_term)}
+
+
+# positions whose operand is a document or a string only
+ONLY_KINDS = {"json_contains": {"json", "jsonlist", "str"}, "json_contained_by": {"json", "jsonlist", "str"}, "json_has_key": {"str"}, "json_path": {"str"},
+              "json_term": {"json", "jsonlist", "str"}}
+
+
+def shared_positions():
+    """name -> (build(v) -> term / criterion built ONCE, embed(Q, term) -> statement text): the cross-dialect pass renders the same
+    value-bearing object under two dialects in a row"""
+    from pypika_tortoise import Case, Table
+    from pypika_tortoise import functions as fn
+    from pypika_tortoise.terms import JSON, ValueWrapper
+
+    t = Table("t")
+
+    def where(Q, c): return str(Q.from_(t).select(t.a).where(c))
+    def select(Q, c): return str(Q.from_(t).select(c))
+    def upsert(Q, c): return str(Q.into(t).insert(1, 2).on_conflict("a").do_update("b", c))
+    def insert(Q, c): return str(Q.into(t).insert(1, c))
+    return {
+        "where": (lambda v: t.a == v, where), "isin": (lambda v: t.a.isin([v, "k"]), where), "between": (lambda v: t.a.between(v, "k"), where),
+        "like": (lambda v: t.a.like(v), where), "func": (lambda v: fn.Coalesce(t.a, v), select),
+        "case_then": (lambda v: Case().when(t.a == 1, v).else_("k"), select), "arith": (lambda v: fn.Concat(t.a, v) == "k", where),
+        "wrapper_select": (lambda v: ValueWrapper(v), select), "wrapper_insert": (lambda v: ValueWrapper(v), insert), "wrapper_upsert": (lambda v: ValueWrapper(v), upsert),
+        "json_contains": (lambda v: t.j.contains(v), where), "json_term": (lambda v: t.j == (JSON(v) if isinstance(v, (dict, list)) else v), where),
+    }
 
 
 class Color(enum.Enum):
@@ -85,6 +121,8 @@ def scalar_cases(rnd):
         ("datetimetz", datetime.datetime(2020, 1, 2, 3, 4, 5, tzinfo=datetime.timezone.utc)),
         ("uuid", uuid.UUID("12345678-1234-5678-1234-567812345678")), ("enum", Color.red), ("strenum", StrE.x), ("strenum", StrPlain.member), ("intenum", IntE.seven),
         ("json", {"a": [1, "q'r", 'd"e'], "b\\": None}), ("json", {"k": "plain", "n": [1, 2.5, True, None]}),
+        ("json", {"k": "plain"}), ("jsonlist", ["x", "y"]), ("json", {"author": "O'Brien"}), ("json", {"t": True}), ("json", {"n": None}),
+        ("json", {"q": 'say "hi"'}), ("json", {"p": "C:\\dir"}), ("jsonlist", [1, {"deep": ["é", 2.5]}]),
     ]
 
 
@@ -210,8 +248,12 @@ def run(tier: str) -> int:
                 raise core.MachineryError(f"marker not found in benign statement {pname}/{d}: {btext}")
             cases = [("str", s) for s in strings] + scalar_cases(rnd)
             for kind, v in cases:
-                if (pname, kind) in NOT_A_VALUE:
+                if (pname, kind) in NOT_A_VALUE or (pname in ONLY_KINDS and kind not in ONLY_KINDS[pname]):
                     continue
+                if kind == "jsonlist":
+                    if pname not in ONLY_KINDS:
+                        continue  # a Python list at an ordinary value position is an array / tuple of values, not a document
+                    kind = "json"
                 try:
                     text = f(Q, v)
                 except Exception as ex:
@@ -232,6 +274,40 @@ def run(tier: str) -> int:
                     if not ok:
                         rep.discrepancy([[d, pname, "engine", c] for c in char_classes(v)], {"dialect": d, "position": pname, "value": repr(v), "text": text, "engine": got},
                                         what="SQLite does not return the original value for the inlined literal")
+    # second pass: one value-bearing object, two dialects in a row (a literal form remembered from the first rendering must not
+    # reach the second)
+    sp = shared_positions()
+    hot_values = [("str", x) for x in ["a\\b", "it's", 'q"r', "\\", "x\\'y", "%s ?", "C:\\new\\table", "é\n"]] + \
+                 [c for c in scalar_cases(rnd) if c[0] in ("json", "jsonlist", "strenum", "enum", "date", "datetime", "uuid", "bool")]
+    for d1, d2 in (("generic", "mysql"), ("mysql", "postgresql"), ("postgresql", "mysql"), ("mysql", "sqlite"), ("sqlite", "postgresql")):
+        Q1, Q2 = qcls[d1], qcls[d2]
+        ld = core.lex_dialect(d2)
+        for pname, (mk, emb) in sp.items():
+            btext = emb(Q2, mk(MARK))
+            btoks = lexer.lex(btext, ld)
+            if not any(t["t"] == "str" and t["v"] == MARK for t in btoks):
+                raise core.MachineryError(f"marker not found in benign statement shared:{pname}/{d2}: {btext}")
+            for kind, v in hot_values:
+                if pname.startswith("json_") and kind not in ("json", "jsonlist", "str"):
+                    continue
+                if kind == "jsonlist":
+                    if not pname.startswith("json_"):
+                        continue
+                    kind = "json"
+                try:
+                    obj = mk(v)
+                    emb(Q1, obj)
+                    text = emb(Q2, obj)
+                except Exception as ex:
+                    rep.discrepancy([[d2, "shared:" + pname, kind, "raises:" + type(ex).__name__]], {"dialect": d2, "position": pname, "value": repr(v)},
+                                    what="building/rendering a supported value raises")
+                    continue
+                alts = expected_alts(kind, v, ld)
+                if alts is None:
+                    span = marker_span(lexer.lex(text, ld), btoks)
+                    alts = [json_alt(v, span, ld)] if kind == "json" else [numeric_alt(v, span)]
+                events.append(lit.make_event(len(events), d2, text, btext, "str", MARK, alts))
+                meta.append((d2, "shared:" + pname + ":after-" + d1, kind, v, text))
     bad = lit.judge(events, rep)
     rep.traces = len(events)
     rep.evaluations = len(events)
@@ -255,7 +331,7 @@ def run(tier: str) -> int:
     rep.rule = (f"every string over a {len(ALPHABET)}-class adversarial alphabet up to length {maxlen} (+ hot triples, seeded Unicode strings) "
                 f"and {len(scalar_cases(rnd))} non-string values, at {len(pos)} value positions x 6 dialects; TLC lexes the real text "
                 "(PT_Lex!Lex) and requires the benign token list with the marker replaced by one literal decoding to the value; "
-                "distinct = (position, kind, value)")
+                "distinct = (position, kind, value); second pass: one value-bearing term rendered under two dialects in a row (5 ordered pairs x 12 positions x hot values)")
     rep.exhaustive = True
     rep.extra["positions"] = sorted(pos)
     rep.extra["sqlite_literal_roundtrips"] = engine_checked[0]
@@ -267,6 +343,8 @@ def run(tier: str) -> int:
 def replay(path: str) -> int:
     ex = json.load(open(path))["example"]
     print(json.dumps(ex, indent=1))
+    if ex["position"].startswith("shared:"):
+        return 0
     f = positions()[ex["position"]]
     Q = core.query_classes()[ex["dialect"]]
     try:
